@@ -1,6 +1,6 @@
 """Property -> rules table. Each rule callable: (prog, tier, repo) -> [RuleResult]."""
 from .rules import traversal_instances as TI
-from .rules import gate, lookup_unwrap, heap, witness, incremental
+from .rules import gate, lookup_unwrap, heap, witness, incremental, optimizer, const_arith, shape
 
 PROPERTIES = {}
 
@@ -32,8 +32,16 @@ prop('C01', COMMON +
 
 prop('C02', COMMON +
      'TRAVERSAL/DISPATCH/SIBLING: every optimisation pass that walks mid-level statements reads every operand field of '
-     'every statement kind (use collectors, rewriters, escape analysis). Does not decide the arithmetic of the rewrites.',
-     [TI.make(['T-dce', 'T-conditional_constant_propagation', 'T-inlining', 'T-local_value_numbering',
+     'every statement kind (use collectors, rewriters, escape analysis). CONST-ARITH: field-based interprocedural '
+     'taint from user integer-literal payloads of the IRs to Assert(Overflow/DivisionByZero/...) terminators - no '
+     'panicking operator is applied to a program constant at compile time. DCE-KEEP: the DCE dispatcher always keeps '
+     'calls, breaks and loops, and removes a Binary only after operator != DIV and != MOD. FOLD-TABLE: per operator, the '
+     'constant folder uses the MIR operation, operand order, signedness and zero guard of the wasm opcode the wasm '
+     'printer emits for the same operator (both tables read out of MIR discriminant switches). SWAP-TABLE: operand '
+     'swapping <=> mirror operator, never for non-commutative operators; `x - n` -> `x + (-n)` only behind n != i32::MIN. '
+     'Does not decide loop closed forms, LICM legality, inlining capture-avoidance or escape analysis.',
+     [const_arith.run, optimizer.run_dce_keep, optimizer.run_fold_table, optimizer.run_swap_table,
+      TI.make(['T-dce', 'T-conditional_constant_propagation', 'T-inlining', 'T-local_value_numbering',
                'T-scalar_replacement', 'T-unused_name_elimination', 'T-loop_induction_variable_elimination'])])
 
 prop('C06', COMMON +
@@ -96,3 +104,12 @@ prop('C10', COMMON +
      'overwriting errors[m]). Does not decide that the affected set is large enough (graph semantics).',
      [incremental.run_sigkey, incremental.run_order, incremental.run_errors],
      ['affected_set (forward closure of the reverse closure of the dirty set) contains every module whose diagnostics can change'])
+
+prop('C03', COMMON +
+     'Clause "compilation finishes without crashing": CONST-ARITH (no panicking arithmetic on constants of the compiled '
+     'program anywhere in parser/checker/compiler/optimizer; taint from integer-literal payloads to Assert terminators), '
+     'SHAPE-PRODUCER (the parser never constructs a raw MethodAccess node and every Tuple node it builds is dominated by '
+     'truncate(16) and by a test excluding the one-element case - the shapes the checker panics on). Does not decide '
+     'type soundness of the checker or validity of the emitted module.',
+     [const_arith.run, shape.run_shape],
+     ['A-05.1: parenthesised lists reaching a Tuple construction are non-empty (the first element is parsed before)'])
